@@ -228,12 +228,16 @@ def explore(case):
         for q, vb, w, om in itertools.product(quats[::3], vbs[1:], ws[1:], oms[1:]):
             for sc_q in (1.0, 1.1, 0.9):
                 xq = np.concatenate([[0.4, -1.2, 2.0], vb, q * sc_q, w, om])
-                u = om + np.array([30.0, -10.0, 0.0, 5.0])
-                res.count("evaluations")
-                b1 = np.array(fode(xq, u, pv), dtype=float).reshape(-1)
-                b2 = np.array(f(xq, u, pv), dtype=float).reshape(-1)
-                if not (np.all(np.isfinite(b1)) and maxabs(b1 - b2) <= 1e-12 * (1 + maxabs(b2))):
-                    res.fail(site="quadrotor.dae", clause="integrator_right_hand_side_equals_f", cls="unit" if sc_q == 1.0 else "off_unit_sphere", detail=dict(x=xq, u=u, ode=b1, f=b2), sub="model", case=case)
+                bad = False
+                for u in (om + np.array([30.0, -10.0, 0.0, 5.0]), np.array([-50.0, 20.0, -300.0, 0.0])):  # also negative commands
+                    res.count("evaluations")
+                    b1 = np.array(fode(xq, u, pv), dtype=float).reshape(-1)
+                    b2 = np.array(f(xq, u, pv), dtype=float).reshape(-1)
+                    if not (np.all(np.isfinite(b1)) and maxabs(b1 - b2) <= 1e-12 * (1 + maxabs(b2))):
+                        res.fail(site="quadrotor.dae", clause="integrator_right_hand_side_equals_f", cls="unit" if sc_q == 1.0 else "off_unit_sphere", detail=dict(x=xq, u=u, ode=b1, f=b2), sub="model", case=case)
+                        bad = True
+                        break
+                if bad:
                     break
     # (2) hover equilibrium
     xh = np.concatenate([[0, 0, 5.0], np.zeros(3), [1, 0, 0, 0], np.zeros(3), np.full(4, hover)])
